@@ -34,12 +34,14 @@ def valOfJson (j : Json) : Except String Val :=
     | "other" => pure (.other (← j.getObjValAs? String "v"))
     | _ => throw s!"bad value tag {t}"
 
+def cpJson (s : List Char) : Json := .arr (s.map (fun c => Json.num (JsonNumber.fromNat c.toNat))).toArray
+
 def jsonOfVal : Val → Json
   | .none => .null
   | .dflt => Json.mkObj [("t", "default")]
   | .bool b => Json.mkObj [("t", "bool"), ("v", .bool b)]
   | .int i => Json.mkObj [("t", "int"), ("v", .num (JsonNumber.fromInt i))]
-  | .str s => Json.mkObj [("t", "str"), ("v", .str (String.ofList s))]
+  | .str s => Json.mkObj [("t", "str"), ("cp", cpJson s)]   -- code points: raw U+2028 etc. would break the line protocol
   | .flt x => Json.mkObj [("t", "flt"), ("v", jsonOfNum x)]
   | .dec x => Json.mkObj [("t", "dec"), ("v", jsonOfNum x)]
   | .other s => Json.mkObj [("t", "other"), ("v", .str s)]
@@ -105,7 +107,7 @@ def handle (j : Json) : Except String Json := do
                                                      ("size", jOptInt c.size), ("unsigned", jsonOfOptBool c.unsigned)])])
   | "strip" =>
     let s ← argStr j "s"
-    pure (Json.mkObj [("ok", .str (String.ofList (strip s.toList)))])
+    pure (Json.mkObj [("ok", cpJson (strip s.toList))])
   | "validate" =>
     let ty ← j.getObjVal? "type"
     let aj ← j.getObjVal? "attr"
